@@ -212,7 +212,7 @@ var limitVals = []string{"", "0", "1", "10", "100", "1000", "-1", "abc", "999999
 var promQueries = []string{`up`, `rate(http_requests_total{job="a"}[5m])`, `sum by (job) (rate(x[1m]))`, `x{a=~"b.*"} > 2`, `histogram_quantile(0.9, sum(rate(b_bucket[5m])) by (le))`, `{__name__=~".+"}`, `1+1`, `x offset 5m`, `avg_over_time(x[10m:1m])`, `label_replace(up, "a", "$1", "b", "(.*)")`}
 var traceQLs = []string{`{}`, `{.a="b"}`, `{span.http.status=200 && resource.service.name="x"}`, `{.a=~"b.*" || name="op"}`, `{duration>1s} | count() > 2`, `{.a="b"} && {.c="d"}`, `{.a="b"} || {.c!="d"} | avg(duration) > 1ms`, `{.x > 5.5}`}
 var kinds = []string{"query_range", "query_range", "query_range", "query", "labels", "label_values", "series", "prom_range", "prom_instant", "prom_labels", "prom_label_values", "prom_series",
-	"trace", "trace_json", "search", "tags", "tags_v2", "tag_values", "tag_values_v2", "prof_types", "prof_label_names", "prof_label_values", "prof_select_series", "prof_merge", "prof_series", "render_diff"}
+	"trace", "trace_json", "search", "tags", "tags_v2", "tag_values", "tag_values_v2", "prof_types", "prof_label_names", "prof_label_values", "prof_select_series", "prof_merge", "prof_series", "render_diff", "tail"}
 
 func genResult(rt *rapid.T, l string, faulty bool) sqlfake.Result {
 	r := sqlfake.Result{
@@ -305,6 +305,12 @@ func genReq(rt *rapid.T, l string, faulty bool) Req {
 			r.WriteUs = rapid.SampledFrom([]int64{1, 1000}).Draw(rt, l+".writeus")
 		}
 		r.NoDB = rapid.IntRange(0, 20).Draw(rt, l+".nodb") == 0
+	}
+	if r.Kind == "tail" {
+		r.TailMs = rapid.SampledFrom([]int64{0, 500, 1500, 3200}).Draw(rt, l+".tailms")
+		if r.Result.StallAtRow > 0 {
+			r.Result.StallAtRow = 0 // a stalled tick simply waits for the consumer's Close
+		}
 	}
 	r.ThinkUs = rapid.SampledFrom([]int64{0, 0, 10, 1500}).Draw(rt, l+".think")
 	return r
